@@ -80,16 +80,17 @@ type workItem struct {
 }
 
 type explorer struct {
-	P       *Program
-	cfg     *RunConfig
-	fn      *ssa.Function
-	mu      sync.Mutex
-	cond    *sync.Cond
-	stack   []workItem
-	active  int
-	res     *HarnessResult
-	rng     *rand.Rand
-	stopped bool
+	P            *Program
+	cfg          *RunConfig
+	fn           *ssa.Function
+	mu           sync.Mutex
+	cond         *sync.Cond
+	stack        []workItem
+	active       int
+	res          *HarnessResult
+	rng          *rand.Rand
+	stopped      bool
+	violDeadline time.Time
 }
 
 func Explore(P *Program, fn *ssa.Function, cfg *RunConfig) *HarnessResult {
@@ -119,6 +120,12 @@ func (e *explorer) take() (workItem, bool) {
 	defer e.mu.Unlock()
 	for {
 		if e.stopped {
+			return workItem{}, false
+		}
+		if !e.violDeadline.IsZero() && time.Now().After(e.violDeadline) {
+			// a violation is already established: more exploration cannot change the verdict
+			e.stopped = true
+			e.cond.Broadcast()
 			return workItem{}, false
 		}
 		if !e.cfg.Deadline.IsZero() && time.Now().After(e.cfg.Deadline) {
@@ -371,6 +378,9 @@ func (e *explorer) merge(ex *Exec, o pathOutcome) {
 	}
 	for id, n := range o.asserts {
 		r.Asserts[id] += n
+	}
+	if len(o.viol) > 0 && e.violDeadline.IsZero() {
+		e.violDeadline = time.Now().Add(15 * time.Second)
 	}
 	for _, v := range o.viol {
 		k := v.Kind + ":" + v.ID
